@@ -39,7 +39,7 @@ def one(args):
         res['tests'] = 'pass' if rc == 0 else 'FAIL'
         fired = {}
         for p in PROPS:
-            r = subprocess.run([os.path.join(ROOT, 'bin', 'sacheck'), '-prop', p, '-repo', t, '-verif', ROOT, '-out', os.path.join(t, 'ev.json')], env=ENV, capture_output=True, text=True)
+            r = subprocess.run([os.environ.get('SACHECK', os.path.join(ROOT, 'bin', 'sacheck')), '-prop', p, '-repo', t, '-verif', ROOT, '-out', os.path.join(t, 'ev.json')], env=ENV, capture_output=True, text=True)
             hits = [l for l in r.stdout.splitlines() if l.startswith(('VIOLATED', 'UNDECIDED', 'ANALYSIS-FAILED', 'LIVENESS', 'FLOOR'))]
             if r.returncode != 0 and not hits:
                 hits = ['exit %d: %s' % (r.returncode, (r.stdout + r.stderr)[-300:])]
